@@ -551,7 +551,7 @@ func (fv *FV) lemmaStatement(lc *Contract, st *State) string {
 		bn := p + "!l"
 		env.names[p] = Val{T: bn, S: s, Go: t}
 		bs = append(bs, fmt.Sprintf("(%s %s)", bn, s))
-		if g := fv.typeInv(bn, t, 0); g != "true" {
+		if g := fv.lemmaInv(bn, t); g != "true" {
 			guards = append(guards, g)
 		}
 	}
@@ -567,7 +567,19 @@ func (fv *FV) lemmaStatement(lc *Contract, st *State) string {
 	if len(bs) == 0 {
 		return implies(and(pre...), and(post...))
 	}
-	return fmt.Sprintf("(forall (%s) %s)", strings.Join(bs, " "), implies(and(append(guards, pre...)...), and(post...)))
+	body := implies(and(append(guards, pre...)...), and(post...))
+	if len(lc.Patterns) > 0 {
+		var pats []string
+		for _, pat := range lc.Patterns {
+			var ts []string
+			for _, e := range pat {
+				ts = append(ts, fv.evalSpec(env, e).T)
+			}
+			pats = append(pats, ":pattern ("+strings.Join(ts, " ")+")")
+		}
+		body = fmt.Sprintf("(! %s %s)", body, strings.Join(pats, " "))
+	}
+	return fmt.Sprintf("(forall (%s) %s)", strings.Join(bs, " "), body)
 }
 
 // checkFrame: every heap key written during execution must be covered by the
@@ -662,7 +674,16 @@ func (fv *FV) verifyLemma(c *Contract, pkg *packages.Package) {
 	env := &SpecEnv{fv: fv, names: fv.specNames, cur: st, old: st, pkg: pkg, tsub: fv.tsub}
 	for i, p := range c.Params {
 		t := env.resolveType(c.PTypes[i])
-		v := fv.freshVal("p_"+p, t)
+		sort := fv.sess.sortOf(t)
+		v := Val{T: fv.sess.fresh("p_"+p, sort), S: sort, Go: t}
+		inv := fv.lemmaInv(v.T, t)
+		if len(c.Steps) > 0 {
+			// lemmas about real calls quantify over real values
+			inv = fv.typeInv(v.T, t, 0)
+		}
+		if inv != "true" {
+			fv.sess.fact(inv)
+		}
 		fv.entryOld(v)
 		fv.specNames[p] = v
 	}
@@ -691,7 +712,7 @@ func (fv *FV) verifyLemma(c *Contract, pkg *packages.Package) {
 			bn := p + "!ih"
 			ienv.names[p] = Val{T: bn, S: s, Go: t}
 			bs = append(bs, fmt.Sprintf("(%s %s)", bn, s))
-			if g := fv.typeInv(bn, t, 0); g != "true" {
+			if g := fv.lemmaInv(bn, t); g != "true" {
 				guards = append(guards, g)
 			}
 		}
